@@ -7,6 +7,7 @@ package l2tp
 import (
 	"errors"
 	"fmt"
+	"net"
 	"time"
 
 	"github.com/veesix-networks/osvbng/pkg/dataplane"
@@ -158,6 +159,21 @@ func (c *Component) dispatchSCCRQ(pkt *dataplane.ParsedPacket, h *l2tppkt.Header
 		return ErrLACNotAuthorized
 	}
 
+	// A retransmitted SCCRQ (our SCCRP was lost or is still on its way)
+	// must not open a second tunnel: the peer identifies the control
+	// connection by its own Assigned Tunnel ID. Hand the duplicate to the
+	// existing channel, which re-acknowledges it; the SCCRP itself is
+	// retransmitted by the channel's timer.
+	if assigned := l2tppkt.FindFirst(avps, 0, l2tppkt.AVPAssignedTunnelID); assigned != nil && len(assigned.Value) >= 2 {
+		if t := c.lookupResponderTunnelByPeerID(pkt.IPv4.SrcIP, l2tppkt.DecodeUint16(assigned)); t != nil {
+			if t.Channel != nil {
+				_, err := t.Channel.Recv(h.Ns, h.Nr, time.Now())
+				return err
+			}
+			return nil
+		}
+	}
+
 	sccrpBody, t, err := c.HandleSCCRQ(pkt.IPv4.DstIP, pkt.IPv4.SrcIP, avps, cfg)
 	if err != nil {
 		return err
@@ -171,6 +187,19 @@ func (c *Component) dispatchSCCRQ(pkt *dataplane.ParsedPacket, h *l2tppkt.Header
 			return err
 		}
 		return t.Channel.Send(sccrpBody, now)
+	}
+	return nil
+}
+
+// lookupResponderTunnelByPeerID finds the tunnel a peer opened earlier
+// with the given Assigned Tunnel ID (its local id, our PeerID).
+func (c *Component) lookupResponderTunnelByPeerID(peerIP net.IP, peerTunnelID uint16) *Tunnel {
+	c.mu.RLock()
+	defer c.mu.RUnlock()
+	for _, t := range c.tunnels {
+		if t.Role == l2tppkt.RoleResponder && t.PeerID == peerTunnelID && t.PeerIP.Equal(peerIP) {
+			return t
+		}
 	}
 	return nil
 }
